@@ -53,7 +53,11 @@ fn parse(s: &str) -> Sop {
 }
 
 fn opt() -> OptSet {
-	let mut o = OptSet::base("L2-memtable4k-stall-low").levels(2).memtable_size(4096);
+	opt_levels(2)
+}
+
+fn opt_levels(levels: u8) -> OptSet {
+	let mut o = OptSet::base(if levels == 2 { "L2-memtable4k-stall-low" } else { "L3-memtable4k-stall-low" }).levels(levels).memtable_size(4096);
 	o.memtable_stall = 2;
 	o.l0_stall = 2;
 	o.level0_max_files = 2;
@@ -86,6 +90,9 @@ fn commit_live(w: &mut World, key: &[u8], val: &[u8]) -> Result<Result<(), Strin
 				// everything that could wake the commit runs on the store's runtime
 				let before = surrealkv::verif::bg_progress_count();
 				w.drain();
+				if std::env::var("VERIF_DEBUG").is_ok() {
+					eprintln!("   pending commit, after drain: stall counts {:?}, shape {:?}, bg progress {} -> {}", w.tree().verif_stall_counts(), w.shape().map(|s| (s.immutables.len(), s.levels.iter().map(|l| l.len()).collect::<Vec<_>>())), before, surrealkv::verif::bg_progress_count());
+				}
 				if surrealkv::verif::bg_progress_count() == before {
 					// nothing ran: one more poll decides
 					let p = {
@@ -117,10 +124,17 @@ fn futures_noop_waker() -> std::task::Waker {
 }
 
 pub fn run_list(ops: &[Sop]) -> Result<Option<(String, String)>, String> {
+	run_list_on(ops, 2)
+}
+
+pub fn run_list_on(ops: &[Sop], levels: u8) -> Result<Option<(String, String)>, String> {
 	let r = guarded(|| -> Result<Option<(String, String)>, String> {
-		let mut w = World::new(opt(), &[])?;
+		let mut w = World::new(opt_levels(levels), &[])?;
 		let mut n = 0usize;
 		for (i, op) in ops.iter().enumerate() {
+			if std::env::var("VERIF_DEBUG").is_ok() {
+				eprintln!("before step {i} {}: stall counts {:?}, shape {:?}", sop_str(op), w.tree().verif_stall_counts(), w.shape().map(|s| (s.immutables.len(), s.levels.iter().map(|l| l.len()).collect::<Vec<_>>())));
+			}
 			let ctx = |t: String| format!("step {i} {}: {t}", sop_str(op));
 			match op {
 				Sop::W | Sop::Big => {
@@ -130,6 +144,10 @@ pub fn run_list(ops: &[Sop]) -> Result<Option<(String, String)>, String> {
 						Ok(()) => {}
 						Err(e) if e == "HANG" => {
 							let (imm, l0) = w.tree().verif_stall_counts();
+							if std::env::var("VERIF_DEBUG").is_ok() {
+								let r = w.physical(crate::world::Phys::Compact);
+								eprintln!("   manual compaction round after the hang: {:?}, shape {:?}", r, w.shape().map(|s| (s.immutables.len(), s.levels.iter().map(|l| l.len()).collect::<Vec<_>>())));
+							}
 							return Ok(Some(("commit-never-returns".into(), ctx(format!("commit() is still pending after the background tasks ran to quiescence ({imm} immutable memtables, {l0} level-0 tables): nothing is left that could wake it")))));
 						}
 						Err(e) => return Ok(Some((format!("commit-error:{}", crate::props::norm_msg(&e).chars().take(50).collect::<String>()), ctx(e)))),
@@ -218,7 +236,20 @@ pub fn check(tier: Tier) -> i32 {
 	let budget = Budget::new(if tier == Tier::Quick { 15.0 } else { 200.0 });
 	let maxlen = if tier == Tier::Quick { 6 } else { 8 };
 	let lists = gen(maxlen);
-	let results: Vec<(usize, Result<Option<(String, String)>, String>)> = lists.par_iter().enumerate().map(|(i, l)| if budget.exhausted() { (i, Ok(Some(("skipped".to_string(), String::new())))) } else { (i, run_list(l)) }).collect();
+	let results: Vec<(usize, Result<Option<(String, String)>, String>)> = lists
+		.par_iter()
+		.enumerate()
+		.map(|(i, l)| {
+			if budget.exhausted() {
+				return (i, Ok(Some(("skipped".to_string(), String::new()))));
+			}
+			// two level counts: with 2 the first level below level 0 is the last one, with 3 it is not
+			match run_list_on(l, 2) {
+				Ok(None) => (i, run_list_on(l, 3).map(|v| v.map(|(c, t)| (format!("L3:{c}"), t)))),
+				other => (i, other),
+			}
+		})
+		.collect();
 	let mut done = 0u64;
 	let mut seen = std::collections::BTreeSet::new();
 	let mut per_class: std::collections::BTreeMap<String, u64> = Default::default();
@@ -234,6 +265,7 @@ pub fn check(tier: Tier) -> i32 {
 				done += 1;
 				if let Some((class, text)) = v {
 					let class = format!("sequential:{class}");
+					let lv = if class.contains("L3:") { 3 } else { 2 };
 					*per_class.entry(class.clone()).or_default() += 1;
 					if failing.len() < 40 {
 						failing.push(lists[i].iter().map(sop_str).collect::<Vec<_>>().join(" "));
@@ -243,7 +275,7 @@ pub fn check(tier: Tier) -> i32 {
 					report.violations.push(Violation {
 						class,
 						what: if first { format!("[{}] {} => {text}", opt().name, l.join(" ")) } else { String::new() },
-						replay: if first { json!({"engine": "c17-seq", "ops": l}) } else { J::Null },
+						replay: if first { json!({"engine": "c17-seq", "ops": l, "levels": lv}) } else { J::Null },
 					});
 				}
 			}
@@ -273,7 +305,8 @@ pub fn replay(r: &J) -> i32 {
 	surrealkv::verif::set_forced_height(1);
 	let ops: Vec<Sop> = r["ops"].as_array().unwrap().iter().map(|s| parse(s.as_str().unwrap_or(""))).collect();
 	println!("replaying C17 sequential list {}", ops.iter().map(sop_str).collect::<Vec<_>>().join(" "));
-	match (run_list(&ops), run_list(&ops)) {
+	let levels = r["levels"].as_u64().unwrap_or(2) as u8;
+	match (run_list_on(&ops, levels), run_list_on(&ops, levels)) {
 		(Ok(a), Ok(b)) => {
 			if a.as_ref().map(|x| &x.0) != b.as_ref().map(|x| &x.0) {
 				eprintln!("machinery: replay not deterministic");
